@@ -56,6 +56,24 @@ func genC04(r *Rng) *Plan {
 				p.Steps = append(p.Steps, Step{Op: "idp", Sub: "setgroups", User: "alice@example.com", Groups: []string{"eng", "all"}})
 			}
 		}
+		if r.Chance(1, 14) {
+			// process faults: the proxy crashes and restarts (sessions live in the browser and must survive unchanged
+			// rules: same lifetime bound, same due checks); sometimes with a rotated cookie secret or another provider slug,
+			// after which the old cookie must no longer be a justification
+			rs := Step{Op: "restart", Sub: r.Pick("proxy", "proxy", "proxy-mid-request", "auth"), B: "b1", Host: host, Target: "/mid-crash", Dt: posDur(landmark(r, cfg) / 2)}
+			if rs.Sub != "auth" && r.Chance(1, 3) {
+				nc := cfg
+				if r.Chance(1, 2) {
+					nc.ProxySecretSeed = cfg.ProxySecretSeed + 1
+				} else {
+					nc.TokenTTL = cfg.TokenTTL // unchanged knobs; a different lifetime would only apply to new sessions
+					nc.ValidTTL = cfg.ValidTTL / 2
+				}
+				cfg = nc
+				rs.NewCfg = &nc
+			}
+			p.Steps = append(p.Steps, rs)
+		}
 		st := Step{Op: "get", B: "b1", Host: host, Target: r.Pick(somePaths...), Dt: posDur(landmark(r, cfg))}
 		if r.Chance(1, 10) {
 			// a fresh interactive login (the user clicks "Sign in" again)
